@@ -179,14 +179,30 @@ def expected(cname, opname):
     return _expected[key]
 
 
+_ADOPTED = []
+
+
+def _adopt():
+    """mutexes of the library (none on the pinned tree) become scheduler-aware, also those made at import time"""
+    if not _ADOPTED:
+        import ecdsa.curves as CUR
+        import ecdsa.util as UTL
+        import ecdsa._rwlock as RWL
+        for m in (ELL, ECD, KEYS, CUR, UTL, RWL):
+            S.adopt_locks(m)
+        _ADOPTED.append(True)
+
+
 def run_schedule(cname, opnames, plan):
     """plan: list of [thread index, n switch points or None (= run quietly to completion)].
     Threads not finished at the end of the plan are completed quietly in index order.
     -> (results, errors, stats)"""
+    _adopt()
     w = World(cname)
     w.prepare_sigs()
     ops = _ops(w.d.n)
     sc = S.Sched()
+    S.FakeLock.sched = sc
     results = {}
     for i, nm in enumerate(opnames):
         def fn(t, nm=nm, i=i):
@@ -206,6 +222,11 @@ def run_schedule(cname, opnames, plan):
             t = sc_.threads[ti] if ti < len(sc_.threads) else None
             if t is None or t.done or cnt == 0:
                 continue
+            if t not in runnable:
+                # the planned thread waits for a (stand-in) lock: let the holder run on first
+                seg["i"] -= 1
+                sc_.quiet = True
+                return 0
             if cnt is None:
                 sc_.quiet = True
             else:
@@ -246,6 +267,11 @@ def count_switches(cname, opname):
 
 def check_schedule(ctx, case, enum=False):
     cname, opnames, plan = case["curve"], case["ops"], case["plan"]
+    if ctx.counters.get("stuck-schedules", 0) >= 6:
+        # the code under test blocks on primitives the scheduler does not own; every such schedule costs the
+        # watchdog delay and says nothing: stop exploring in this unit
+        ctx.event("skipped-after-6-stuck-schedules")
+        return None
     ctx.ev()
     ctx.case_sample(case)
     try:
